@@ -274,6 +274,41 @@ fn quiet_case(imp: &str, rt: &tokio::runtime::Runtime, fr: &Frames, idx: &RepInd
 }
 fn count_frames(compressed: bool, d: &[u8]) -> usize { let mut i = 0; let mut n = 0; while i < d.len() { let l = d[i] as usize * if compressed { 4 } else { 1 }; if l == 0 { break; } i += l; n += 1; } n }
 
+/// writes around a bounced datagram: the peer port is closed for a moment (the game restarting), one write bounces off it, the
+/// peer comes back on the same port and the caller carries on writing.  Whatever a write() returns, every write that returned Ok
+/// while the peer was listening must have left as exactly one datagram holding exactly its frame - a write whose datagram the
+/// kernel refused must not report success, and a refused frame must not ride along with a later one.
+/// Returns None = holds (or the port could not be re-bound), Some(description) otherwise.
+pub fn bounce_case(imp: &str, rt: &tokio::runtime::Runtime, compressed: bool) -> Option<String> {
+    use insim::{identifiers::RequestId, insim::{Tiny, TinyType}};
+    let peer = UdpSocket::bind("127.0.0.1:0").ok()?; let paddr = peer.local_addr().ok()?;
+    let a = UdpSocket::bind("127.0.0.1:0").ok()?; a.connect(paddr).ok()?;
+    peer.set_read_timeout(Some(Duration::from_millis(300))).ok()?;
+    let pk = |i: u8| Packet::Tiny(Tiny { reqi: RequestId(i), subt: TinyType::Ping });
+    enum F { B(BFramed), A(AFramed) }
+    let _g = rt.enter();
+    let mut f = if imp == "B" { F::B(BFramed::new(Box::new(BUdp::from(a)), Codec::new(mode_of(compressed)))) } else { a.set_nonblocking(true).ok()?; F::A(AFramed::new(Box::new(AUdp::from(tokio::net::UdpSocket::from_std(a).ok()?)), Codec::new(mode_of(compressed)))) };
+    let mut write = |f: &mut F, p: Packet| -> bool { match f { F::B(x) => matches!(guard(|| x.write(p)), Some(Ok(()))), F::A(x) => matches!(guard(|| rt.block_on(async { tokio::time::timeout(Duration::from_secs(2), x.write(p)).await })), Some(Ok(Ok(())))) } };
+    // 0. a first packet arrives
+    if !write(&mut f, pk(1)) { return Some("the first write fails".into()); }
+    let mut rb = [0u8; 2048];
+    match peer.recv(&mut rb) { Ok(n) if Some(rb[..n].to_vec()) == encode(compressed, &pk(1)) => {}, other => return Some(format!("the first packet did not arrive as its frame: {:?}", other.map(|n| hex(&rb[..n]))) ) }
+    // 1. the peer goes away; a write bounces (UDP cannot know yet: it may well report success)
+    drop(peer);
+    let _ = write(&mut f, pk(2));
+    std::thread::sleep(Duration::from_millis(30));
+    // 2. the peer is back on the same port
+    let peer = match UdpSocket::bind(paddr) { Ok(p) => p, Err(_) => return None };
+    peer.set_read_timeout(Some(Duration::from_millis(150))).ok()?;
+    // 3. the caller carries on: the first of these writes meets the pending "port unreachable" error
+    let mut want: Vec<Vec<u8>> = vec![]; let mut results = vec![];
+    for i in 3..=7u8 { let ok = write(&mut f, pk(i)); results.push(ok); if ok { want.push(encode(compressed, &pk(i)).unwrap_or_default()); } std::thread::sleep(Duration::from_millis(2)); }
+    let mut got: Vec<Vec<u8>> = vec![]; while let Ok(n) = peer.recv(&mut rb) { got.push(rb[..n].to_vec()); }
+    if got != want { return Some(format!("writes 3..7 returned {:?}; the peer (listening again) received {:?} but the frames of the writes that reported success are {:?}", results, got.iter().map(|d| hex(d)).collect::<Vec<_>>(), want.iter().map(|d| hex(d)).collect::<Vec<_>>())); }
+    if !results.iter().skip(1).all(|r| *r) { return Some(format!("writes after the refused one keep failing: {:?}", results)); }
+    None
+}
+
 fn write_case(imp: &str, rt: &tokio::runtime::Runtime, compressed: bool, packets: &[Packet]) -> (Vec<Vec<u8>>, Vec<Vec<u8>>) {
     let (a, b) = pair();
     b.set_nonblocking(true).unwrap();
@@ -312,6 +347,7 @@ pub fn run(a: &Args) {
             let want = adaptor_expect(&dgs, &used);
             if tr == want { println!("PASS"); std::process::exit(0) } else { println!("FAIL adaptor chunks differ from the datagram payloads\n got  {}\n want {}", &tr[..tr.len().min(300)], &want[..want.len().min(300)]); std::process::exit(1) }
         }
+        if let Some(rest) = r.strip_prefix("bounce ") { let t: Vec<&str> = rest.split_whitespace().collect(); let mut bad = None; for _ in 0..3 { if let Some(w) = bounce_case(t[0], &rt, t[1] == "C") { bad = Some(w); } } match bad { Some(w) => { println!("FAIL [C08] {w}"); std::process::exit(1) }, None => { println!("PASS"); std::process::exit(0) } } }
         if let Some(rest) = r.strip_prefix("quiet ") {
             let t: Vec<&str> = rest.split_whitespace().collect(); let compressed = t[1] == "C"; let seed: u64 = t[2].parse().unwrap(); let rep: u64 = t[3].parse().unwrap();
             let mut r2 = Rng::new(seed ^ (0xC08 + rep));
@@ -396,6 +432,12 @@ pub fn run(a: &Args) {
         }
         if failed == 0 { st.fail("[C08 harness] no read failed in a quiet-spell session".into(), format!("quiet {imp} {} {} {rep}", mode_tag(compressed), a.seed)); }
         st.add("reads failed for lack of traffic (quiet spells)", failed as u64);
+    } } }
+    // (c0) writes around a bounced datagram
+    for compressed in [true, false] { for imp in ["B", "A"] { for _ in 0..(if a.thorough() { 6 } else { 2 }) {
+        st.evaluations += 1; st.distinct_nontrivial += 1;
+        if let Some(w) = bounce_case(imp, &rt, compressed) { st.fail(format!("[C08 {} write] {w}", if imp == "B" { "blocking" } else { "tokio" }), format!("bounce {imp} {}", mode_tag(compressed))); }
+        st.bump("writes around a bounced datagram (peer port closed and re-opened)");
     } } }
     // (c) writes
     for compressed in [true, false] {
